@@ -228,7 +228,7 @@ func (s *Scanner) scanHexDigits(count int, scanAsManyAsPossible bool, canHaveSep
 		allowSeparator = canHaveSeparators
 		if ch >= 'A' && ch <= 'F' {
 			ch += 'a' - 'A'
-		} else if !(ch >= '0' && ch <= '9' || ch >= 'a' && ch <= 'z') {
+		} else if !(ch >= '0' && ch <= '9' || ch >= 'a' && ch <= 'f') {
 			break
 		}
 
@@ -329,7 +329,7 @@ func (s *Scanner) scanHexadecimalEscape(numDigits int) string {
 	var escapedValue = s.scanExactNumberOfHexDigits(numDigits, false)
 
 	if escapedValue >= 0 {
-		return strconv.Itoa(escapedValue)
+		return string(rune(escapedValue))
 	} else {
 		s.error(M_Hexadecimal_digit_expected)
 		return ""
